@@ -15,9 +15,9 @@ CHECKS = {
          "Each case writes base.yml/<profile>.yml, sets PX_ variables in a cleared child environment and loads the configuration with the real ConfigLoader (derive-macro profile enum incl. custom names with digits/upper case); the loaded map must equal env ?? profile ?? base for every key and contain nothing else; no valid profile / missing required key must be errors. Both seeded defects caught within 9 cases.",
          "Trusted: the harness YAML writer and flattening; values are strings figment cannot re-type. A missing profile *file* and profile selection purely via PX_PROFILE=<other valid> are classified only.",
          "DESIGN.md §4 C18"),
- "C19": ("rtprops", "property-based testing (proptest): generated Blueprint API call sequences through #[track_caller] wrappers against a reference schema built in parallel; persist -> ron::de round trip",
-         "Part (a): random call sequences (all registration kinds, modifier chains incl. overriding calls, nesting depth<=5) build a real Blueprint and a reference pavex_bp_schema::Blueprint; persist() output read back exactly like pavexc_cli must equal the reference incl. every source location; persist twice / load+persist are byte-identical. Seed C19-A caught in the first case. Part (b) (attributes through the real macros -> rustdoc JSON -> annotation parser) is served by the E2E engine.",
-         "Trusted: the reference construction in harness/rtprops/src/c19.rs.",
+ "C19": ("rtprops", "property-based testing (proptest): (a) generated Blueprint API call sequences through #[track_caller] wrappers against a reference schema built in parallel, persist -> ron::de round trip; (b) generated applications whose attribute arguments (lifecycle, cloning policy, allow lists, method sets incl. mixed-case custom methods, any_method) are written in the attributes and partly overridden at registration, through the real macros -> rustdoc JSON -> pavexc -> running server, judged by the lifecycle / routing reference models",
+         "Part (a): random call sequences (all registration kinds, modifier chains incl. overriding calls, nesting depth<=5) build a real Blueprint and a reference pavex_bp_schema::Blueprint; persist() output read back exactly like pavexc_cli must equal the reference incl. every source location; persist twice / load+persist are byte-identical. Part (b) (engine pxe2e, evidence merged into the same file): the effective properties must be the ones observed at run time (instances per lifecycle, clones only for clone-if-necessary, unused-constructor warning iff no allow(unused), every route answering exactly its method set). Seed C19-A caught by (a) in the first case, C19-B (method names upper-cased by the attribute parser) by (b).",
+         "Trusted: the reference construction in harness/rtprops/src/c19.rs; for (b) the emitter and the models of C03/C04/C07. Attribute arguments of config/prebuilt/error_handler(default) are exercised only as far as the generators use them.",
          "DESIGN.md §4 C19"),
  "C13": ("rtprops", "model-based property testing (proptest): generated store operation histories against a map-with-expiry model on both bundled stores; concurrent histories checked for serialisability by memoised search",
          "Sequential: 1-40 ops over 3 ids with arbitrary JSON states and ttl in {0,1h,10y}, every result compared with the model, final scan of every id. Concurrent: 2-4 tasks x 2-5 ops on 2 ids on a multi-thread runtime (memory store, SQLite file DB with 4 connections), repeated, accepted iff some program-order-respecting interleaving explains all results. Found and fixed a genuine SQLite boundary defect; both seeded defects (one sequential, one race) are caught. The thread schedule is sampled, not enumerated.",
@@ -52,8 +52,8 @@ CHECKS.update({
          "Trusted: the emitter (harness/pxe2e/src/emit.rs) produces what the spec says; toolchain alias `nightly` with locally built std JSON docs stands in for the pinned docs toolchain.",
          "DESIGN.md §3, §4 C01"),
  "C02": ("pxe2e", "generative end-to-end testing: applications generated inside the documented-rules class by construction; oracle 'accepted with no ERROR', alone and nested with siblings",
-         "The generator assigns every injectable type a usage discipline (borrow-only, move-once, Copy, clone-if-necessary, transient) and builds constructors, middlewares and handlers that respect it, so that by the documented rules the application must be accepted; every rejection is a violation (or a listed finding). One genuine defect (Copy values across middleware stages) found and fixed; two compiler panics on rule-abiding applications are filed as known findings. Cannot show absence.",
-         "Trusted: the discipline assignment in harness/pxe2e/src/genr.rs encodes the documented rules (each rule is cited in DESIGN.md). Prefix path parameters and observers outside the root blueprint are not generated.",
+         "The generator assigns every injectable type a usage discipline (borrow-only, move-once, Copy, clone-if-necessary, transient) and builds constructors, middlewares and handlers that respect it, so that by the documented rules the application must be accepted; every rejection is a violation (or a listed finding). Three genuine defects found and fixed (Copy values across middleware stages; two compiler panics on rule-abiding applications: node ordering stuck, dangling pavex::Error::new). Cannot show absence.",
+         "Trusted: the discipline assignment in harness/pxe2e/src/genr.rs encodes the documented rules (each rule is cited in DESIGN.md). Generic constructors are generated only in the dedicated generics family.",
          "DESIGN.md §4 C02"),
  "C03": ("pxe2e", "generative end-to-end testing with an instrumented application: event-log invariants over generated request scripts (model-based oracle for lifecycles)",
          "Every accepted generated application is built into a real server; a driver sends request scripts (each route x plans: none / early return / skip next / fail component) over loopback; constructors and components log construction and reception events with instance ids. Oracle: singleton built once before serving and shared, request-scoped at most once per request and shared, transient once per injection site, nothing received before it was built. Samples schedules of a single-connection client; concurrency between requests is not explored here.",
@@ -72,7 +72,7 @@ CHECKS.update({
          "Trusted: model::resolve_err_handler and oracles::check_failure. Observers are registered in the root blueprint only.",
          "DESIGN.md §4 C06"),
  "C07": ("pxe2e", "generative end-to-end testing + model-based oracle: generated route tables (static/param/catch-all segments, method guards incl. ANY and custom, prefixes, domains, fallbacks) vs an independent reference router, requests derived from the routes and mutated",
-         "Route tables are generated, filtered by the documented conflict rules, compiled and served; requests derived from each route (matching, near-miss, wrong method, trailing slash, percent-encoding, Host variants incl. port / trailing dot / case) are sent over loopback and the answering handler, 404/405 + Allow set and the fallback chosen are compared with the reference router. Four genuine defects found and fixed (prefix off-by-one panic, exact-prefix fallback, start-up order conflicts, two trailing dots); one filed as finding (fallback shadowed by a parametric prefix). Cannot show absence.",
+         "Route tables are generated, filtered by the documented conflict rules, compiled and served; requests derived from each route (matching, near-miss, wrong method, trailing slash, percent-encoding, Host variants incl. port / trailing dot / case) are sent over loopback and the answering handler, 404/405 + Allow set and the fallback chosen are compared with the reference router. Five genuine defects found and fixed (prefix off-by-one panic, exact-prefix fallback, start-up order conflicts, two trailing dots, nested fallback silently dropped under a parametric prefix). Cannot show absence.",
          "Trusted: model::route_request. Prefixes with parameters are generated only in the fallback sub-campaign; a domain whose only content is nested under a prefix is not generated.",
          "DESIGN.md §4 C07"),
  "C08": ("pxe2e", "mutation-based generative testing: exactly one violation of one of 14 documented compile-time rules planted at a generated site of a rule-abiding application; oracle 'exit 1, >=1 ERROR, output crate untouched'",
@@ -80,7 +80,7 @@ CHECKS.update({
          "Trusted: genr::plant (site selection = components reachable from a route) and the emitter.",
          "DESIGN.md §4 C08"),
  "C09": ("pxe2e", "generative robustness testing (chaos class): several planted violations + structural oddities; oracle 'terminates, exit 0 with SDK or exit 1 with ERROR, never a panic'; atomicity by checksum of a previously generated SDK",
-         "Pairs (accepted base, chaos variant) are compiled into the same output crate; every compiler run must end within the watchdog with exit 0/1 coherent with its diagnostics and without panic; a failing variant must leave the base SDK byte-for-byte untouched. Recorded reproductions of the two filed compiler panics are replayed on every run and reported as KNOWN-FINDING. Hangs are reported as exit 2 (inconclusive), never as violations. Cannot show absence.",
+         "Pairs (accepted base, chaos variant) are compiled into the same output crate; every compiler run must end within the watchdog with exit 0/1 coherent with its diagnostics and without panic; a failing variant must leave the base SDK byte-for-byte untouched. Recorded reproductions of the two repaired compiler panics are replayed on every run. A compiler process that burns more than 90 s of its own CPU time (warm runs: 1-5 s; independent of machine load) is reported as non-terminating; a run that merely exceeds the 150 s wall-clock watchdog makes the check exit 2 (inconclusive). Cannot show absence.",
          "Trusted: panic detection = exit code 101 / 'The application panicked' on stderr; checksum over all files of the output crate.",
          "DESIGN.md §4 C09"),
  "C10": ("pxe2e", "history-based property testing: generated accepted applications x a fixed history of compiler runs (repeat, --check, fresh processes with RAYON_NUM_THREADS 1/2/16, perturbation, cold cache) with byte/mtime comparison",
@@ -116,7 +116,7 @@ manifest = {
  "engines": [
    {"name": "cprops", "path": "harness/cprops", "serves_properties": [p for p in props if p in CHECKS and CHECKS[p][0]=="cprops"],
     "kind_free_text": "in-process proptest checks that link the compiler library (pavexc, feature verif_hooks)"},
-   {"name": "pxe2e", "path": "harness/pxe2e", "serves_properties": [p for p in props if p in CHECKS and CHECKS[p][0]=="pxe2e"],
+   {"name": "pxe2e", "path": "harness/pxe2e", "serves_properties": [p for p in props if p in CHECKS and CHECKS[p][0]=="pxe2e"] + ["C19"],
     "kind_free_text": "end-to-end engine: proptest-generated application crates -> Blueprint::persist -> real pavexc (rebuilt from /repo) -> rustc -> instrumented server driven over loopback; reference models for scopes, pipelines and routing; greedy spec shrinking; work lanes under /verif/.work"},
    {"name": "rtprops", "path": "harness/rtprops", "serves_properties": [p for p in props if p in CHECKS and CHECKS[p][0]=="rtprops"],
     "kind_free_text": "in-process proptest checks against the real runtime/compiler library crates (path dependencies on /repo), fixed-seed TestRunner, shrunk failures saved as replay files"},
